@@ -46,6 +46,8 @@ SNIPPETS = [
     "np.append(np.array([1, 2]), 5)", "np.append(5, np.array([1, 2]))", "np.append(np.array([]), [1.5, 2.5])", "np.append(np.array([1, 2])[0], np.array([7, 8]))",
     "np.interp(np.arange(6), np.array([1, 3, 4]), np.array([0.0, 2.0, -1.0]))", "np.interp(np.arange(3), np.array([1]), np.array([7.0]))",
     "np.add.reduceat(np.array([1.0, 2.0, 4.0, 8.0, 16.0]), np.array([0, 2, 3]))", "np.add.reduceat(np.arange(6), np.array([1, 4])) / np.diff(np.array([1, 4, 6]))",
+    "np.allclose(np.array([1e-9, -1e-9]), 0)", "np.allclose(np.array([1e-7, 0.0]), 0)", "np.isclose(np.array([1.0, 2.0, np.nan]), np.array([1.0 + 1e-9, 2.1, np.nan]))",
+    "np.linspace(0, 7 / 3, 7, endpoint=False)", "np.linspace(0, 1, 5)", "np.linspace(2.0, 3.0, 1)",
     "np.ceil(3 / 2)", "int(np.ceil(0 / 2))", "np.array([2, 9, 4])[0::2]", "np.array([5, 7, 9])[np.array([True, False, True])] - 2",
     # --- pandas
     "pd.DataFrame({'a': [1, 2, 3], 'b': [1.5, 2.5, 3.5]}).to_dict('records')", "len(pd.DataFrame())", "list(pd.DataFrame().columns)",
